@@ -5,11 +5,14 @@ module:Class.member), params [(lean name, model type, python class)], ret (model
 group (Gen file), props (properties served)."""
 
 KERNELS = []
+_GENERATION = [0]
 
 
 def K(name, target, params, ret, group, props=(), **kw):
     d = dict(name=name, target=target, params=params, ret=ret, group=group,
              props=list(props))
+    if _GENERATION[0]:
+        d['generation'] = _GENERATION[0]
     d.update(kw)
     KERNELS.append(d)
 
@@ -546,6 +549,14 @@ K('a_arc3d_distance_to_point', 'geometry3d.arc:Arc3D.distance_to_point', [p('x',
 K('a_cone_base', 'geometry3d.cone:Cone.base', [p('x', CON)], 'Arc3S', 'Auto', ['C16'])
 K('a_cyl_base_bottom', 'geometry3d.cylinder:Cylinder.base_bottom', [p('x', CYL)], 'Arc3S', 'Auto', ['C16'])
 K('a_cyl_base_top', 'geometry3d.cylinder:Cylinder.base_top', [p('x', CYL)], 'Arc3S', 'Auto', ['C16'])
+
+
+# ------------------------------------------------------------------ second generation
+# (bounding boxes, polylines, polygon members over vertex / segment lists, ...): module
+# kernels2.py; translated with the v2 semantics of the interpreter (Interp.v2)
+_GENERATION[0] = 1
+import kernels2  # noqa: E402,F401
+kernels2.register(K, globals())
 
 
 def all_kernels():
